@@ -64,6 +64,7 @@ def evaluate(rep, scenarios, fn, procs=16, chunksize=4, sample_fmt=None):
             rep.p_facts += out.get("P", 0)
             rep.d_facts += out.get("D", 0)
             rep.m_facts += out.get("M", 0)
+            rep.x_facts += out.get("X", 0)
             for k, v in out.get("count", {}).items():
                 rep.extra.setdefault("counts", {})
                 rep.extra["counts"][k] = rep.extra["counts"].get(k, 0) + v
@@ -84,6 +85,8 @@ def report(rep, findings, tags):
     for prop, clause, msg, scen in findings:
         if prop in tags:
             rep.violate(clause, msg, scen)
+        elif prop == "BEYOND":
+            rep.note(clause, msg, scen)
         else:
             other[prop] = other.get(prop, 0) + 1
     if other:
@@ -108,10 +111,10 @@ def self_test(rep, scenarios, fn, mutate, what, tries=400):
         if tried > tries:
             break
         ok_out = fn(i, scn)
-        if ok_out["found"]:
+        if [f for f in ok_out["found"] if f[0] != "BEYOND"]:
             continue                      # only scenarios that conform can demonstrate the binding
         out = fn(i, bad)
-        rejected = bool(out["found"])
+        rejected = bool([f for f in out["found"] if f[0] != "BEYOND"])
         rep.self_tests.append(dict(test=f"perturbed prediction ({what}) of scenario {i} must be reported", reported=rejected))
         if not rejected:
             # decided in common.finish: a machinery failure (exit 2) unless the run reports violations of the
